@@ -22,7 +22,7 @@ Inm == {"absent", "match", "mismatch"}          \* If-None-Match
 Ims == {"absent", "match", "older"}             \* If-Modified-Since
 Ranges == {"absent", "bytes"}
 ClientAE == {"absent", "gzip", "br"}
-Rewrites == {"none", "strip", "chain"}           \* strip: /api/*:/$1   chain: /api/*:/v1/$1 then /v1/*:/$1 (rules apply one after the other)
+Rewrites == {"none", "strip", "chain", "nomatch"}           \* strip: /api/*:/$1   chain: /api/*:/v1/$1 then /v1/*:/$1 (rules apply one after the other); nomatch: /other/*:/$1 (a rule that does not match the path)
 AddReq == {"none", "xadded", "via"}              \* via: the client sends a Via header too
 AddQuery == {"none", "kv"}
 AddResp == {"none", "xresp", "vary"}             \* vary: the upstream sends a Vary header too
@@ -37,7 +37,8 @@ Fetching(c) == Cacheable(c) /\ c.state = "cold"
 Contact(c) == ~(Cacheable(c) /\ c.state = "hit")       \* a hit does not go to the upstream
 
 (* what the upstream must see *)
-UpPath(c) == IF c.rewrite \in {"strip", "chain"} THEN "/res" ELSE "/api/res"
+(* penc: the client's path holds an escaped slash (/api/re%2Fs), which must reach the upstream as it is *)
+UpPath(c) == IF c.penc THEN "/api/re%2Fs" ELSE IF c.rewrite \in {"strip", "chain"} THEN "/res" ELSE "/api/res"
 UpQueryBag(c) == BagOf(c.query \o (IF c.addquery = "kv" THEN <<"kv">> ELSE <<>>))
 UpInm(c) == IF Fetching(c) THEN "absent" ELSE c.inm
 UpIms(c) == IF Fetching(c) THEN "absent" ELSE c.ims
@@ -72,12 +73,14 @@ QV == {<<q, i, s, r>> \in Queries \X Inm \X Ims \X Ranges :
 QVplain == {x \in QV : x[2] = "absent" /\ x[3] = "absent" /\ x[1] \in {<<>>, <<"a1", "b2">>}}
 Feat == {<<w, ar, ap, ua>> \in {"none", "strip"} \X AddReq \X AddResp \X {"none", "gzip"} : TRUE}
 FeatSpecial == {<<w, "none", "none", ua>> : w \in Rewrites, ua \in UpAE} \ Feat
-Mk(ms, x, a, aq, f) ==
-  [m |-> ms[1], query |-> x[1], inm |-> x[2], ims |-> x[3], range |-> x[4], ae |-> a, rewrite |-> f[1], addreq |-> f[2],
+MkP(ms, x, a, aq, f, pe) ==
+  [penc |-> pe, m |-> ms[1], query |-> x[1], inm |-> x[2], ims |-> x[3], range |-> x[4], ae |-> a, rewrite |-> f[1], addreq |-> f[2],
    addquery |-> aq, addresp |-> f[3], upae |-> f[4], state |-> ms[2]]
+Mk(ms, x, a, aq, f) == MkP(ms, x, a, aq, f, FALSE)
 Cases ==
        {Mk(ms, x, a, aq, f) : ms \in MS, x \in QV, a \in ClientAE, aq \in AddQuery, f \in Feat}
   \cup {Mk(ms, x, a, aq, f) : ms \in MS, x \in QVplain, a \in ClientAE, aq \in AddQuery, f \in FeatSpecial}
+  \cup {MkP(ms, x, a, aq, <<w, "none", "none", "none">>, TRUE) : ms \in MS, x \in QVplain, a \in ClientAE, aq \in AddQuery, w \in {"none", "nomatch"}}
 
 VARIABLE l
 
@@ -113,7 +116,7 @@ Ok(o) ==
   /\ o.client.xresp = (IF c.addresp = "xresp" THEN "1" ELSE "")
   /\ o.client.vary = (<<"Accept-Language">> \o (IF c.addresp = "vary" THEN <<"X-Device">> ELSE <<>>))
   \* a 304 / 206 provoked by this client is never replayed to another one as the resource
-  /\ o.next.status = 200 /\ (c.m # "HEAD" => o.next.bodyFull)
+  /\ o.next.status = 200 /\ (c.m # "HEAD" => o.next.bodyFull)        \* (another resource crossed the proxy in between)
 
 CheckInit == l = 0
 CheckNext == l < Len(Obs) /\ l' = l + 1
